@@ -90,6 +90,11 @@ class PropBase:
     def nontrivial(self, sess, i, step, out, hit_delta):
         return None  # default rule: fault fired earlier or a memo written earlier was read
 
+    def unordered(self, sess, i, step):
+        """Is the outcome order of this step legitimately hash-seed dependent?  None = decide
+        from the value ASTs (an unordered collection of >= 2 elements, a set-typed position)."""
+        return None
+
     def comparable(self, sess, i, step) -> bool:
         """May this step be compared between replicas in different environments?"""
         return True
@@ -117,7 +122,7 @@ class PropBase:
                 sess.outcomes[step.get("id", i)] = out
                 sess.log_step(i, step, out, pre_sig=pre_sig, hit_delta=hit_delta,
                               nontrivial=self.nontrivial(sess, i, step, out, hit_delta),
-                              comparable=self.comparable(sess, i, step))
+                              comparable=self.comparable(sess, i, step), unordered=self.unordered(sess, i, step))
                 self.check(sess, i, step, out)
             self.finish(sess)
         finally:
